@@ -99,7 +99,7 @@ CLAIMS = {
 }
 NOT_CLAIMED = {}
 
-for _m in ("claims_vec", "claims_str", "claims_box", "claims_borrow", "claims_threads"):
+for _m in ("claims_str", "claims_box", "claims_borrow", "claims_threads"):
     try:
         _mod = __import__(_m)
         CLAIMS.update(_mod.CLAIMS)
@@ -109,3 +109,34 @@ for _m in ("claims_vec", "claims_str", "claims_box", "claims_borrow", "claims_th
 
 # properties whose check is complete enough to be claimed in MANIFEST.json (the lead flips these on)
 READY = {"C17", "C14", "C20", "C05", "C01", "C02", "C11", "C12", "C03", "C04", "C06", "C07", "C08", "C09", "C10", "C18", "C19"}
+
+# composite properties: the family texts are kept per part and stitched together here
+try:
+    import claims_vec as _cv
+    _V = _cv.CLAIMS
+    CLAIMS["C13"] = dict(_V["C13"])
+    CLAIMS["C15"] = dict(
+        text=_V["C15"]["text"] + " || Box part: Own over all programs of boxed.rs (never_dropped_twice, box_drop: exactly one drop and the arena "
+             "untouched, into_inner/into_raw/from_raw/leak/pin transfer without running a destructor, conversions array<->slice<->Vec keep "
+             "the id sequence), Props/C17. || Arena part: reset/drop only emit free events and write no memory; the model has no step that "
+             "touches a stored value; on the real crate a drop ledger over arena-resident droppable elements checks that no destructor runs "
+             "during fills, reset and drop (Props/C16A).",
+        note=_V["C15"]["note"], technique="Lean 4 ownership invariants (Vec slot machine, Box ownership machine) + three-way differential runs (crate, std, model) with drop ledgers")
+    CLAIMS["C16"] = dict(
+        text=_V["C16"]["text"] + " || String part: retain with a panicking closure leaves valid UTF-8 for every panic index (C16_string_retain_valid; "
+             "rests on the SetLenOnDrop guard whose presence the translator re-reads; counterexample for the unguarded loop kept), programs "
+             "continuing after such panics stay valid (Proofs/StrPanic). || Box part: dropping a boxed slice/array whose k-th destructor panics "
+             "drops every element exactly once, for every k (Props/C17). || Arena part: a panic in an initialiser / fill closure after the "
+             "reservation leaves the arena in the post-reservation state, which satisfies the live-block invariant, the block leaked; the arena "
+             "stays usable for every later history (Props/C16A); panics injected at every closure index of alloc_slice_fill_with/iter and "
+             "alloc_try_with on the real crate.",
+        note=_V["C16"]["note"], technique="Lean 4 theorems over unwinding paths (panic index universally quantified) + panic injection at every callback index on the real crate")
+    CLAIMS["C18"]["text"] += (" || Vec part: after reserve(n)/with_capacity(n) cap >= len + n and pushes up to capacity do not reallocate "
+                              "(capacity and contents compared with the RawVec model on growth workloads); amortised growth new_cap = "
+                              "max(2*cap, required) (C13_reserve theorems in Props/C13).")
+    CLAIMS["C19"]["text"] += (" || Vec/RawVec part: capacity arithmetic (checked_mul, isize::MAX guard, len+additional overflow) in the RawVec "
+                              "model: reserve/try_reserve/with_capacity beyond the representable range end in Err/panic, never in a capacity "
+                              "larger than what was reserved; boundary counts around usize::MAX/size on the real crate.")
+except ImportError:
+    pass
+READY |= {"C13", "C15", "C16"}
